@@ -1694,6 +1694,7 @@ error:
 		free(opttitle);
 	if (comment)
 		free(comment);
+	cfg_free_value(&funcopt);	/* arguments of an unfinished function call */
 
 	return STATE_ERROR;
 }
